@@ -163,6 +163,70 @@ theorem raw_list_value_shared_witness (pol : SharePolicy) :
         .mk (some 0) (some "k") true none none none none (some (.arr [.int 1]))] [] 0 := by
   simp [loadRefsList, loadRefs, valueObj, loadRefsTy, loadRefsMeta]
 
+/-- **the `type` property inside the theorem** (`Cast`: `_type or self.to`; DataType & co: the node itself, never
+    dumped; everything else: `_type`).  For a tree given with its raw `_type` fields, whatever classes take the special
+    branches (`R` is read off the live classes on every run): loading the real dump succeeds; the loaded tree `L` is the
+    normalised `type`-view of `t`; viewing `L` again changes nothing (so `L.type` agrees with `t.type` on every node);
+    and dumping `L` gives the very payload list `t` gave -/
+theorem type_view_roundtrip (R : TypeRules) (t : Val) (hwf : (t.view R).WF) (hobj : t.isObj = true) :
+    load (realDump R t) = some (some (t.view R).norm) ∧
+    ((t.view R).norm).view R = (t.view R).norm ∧
+    realDump R ((t.view R).norm) = realDump R t := by
+  have hobj' : (t.view R).isObj = true := by cases t <;> simp_all [Val.view, Val.isObj]
+  have hfix : ((t.view R).norm).view R = (t.view R).norm := by
+    rw [view_norm R _ hwf, SqlglotModel.Serde.view_idem]
+  refine ⟨load_dump _ hwf hobj', hfix, ?_⟩
+  unfold realDump
+  rw [hfix, dump_norm]
+
+/-- where the loaded tree differs from the dumped one although every `.type` agrees: a Cast without `_type` comes back
+    with `_type` set to a copy of its target type -/
+theorem cast_type_materialised_witness (R : TypeRules) (hc : R.isCast "Cast" = true) (hd : R.isDataType "Cast" = false)
+    (hd' : R.isDataType "DataType" = true) :
+    (Val.node "Cast" none none none [.one "to" (.node "DataType" none none none [.one "this" (.dtype "INT")])]).view R =
+      Val.node "Cast" (some (.node "DataType" none none none [.one "this" (.dtype "INT")])) none none
+        [.one "to" (.node "DataType" none none none [.one "this" (.dtype "INT")])] := by
+  simp [Val.view, viewOpt, viewMeta, viewArgs, Arg.view, typeProp, hc, hd, hd', argOne, notNull, Val.isNull]
+
+/-- … and a DataType's own `_type` (its `type` is itself) is never dumped, hence lost -/
+theorem datatype_own_type_dropped_witness (R : TypeRules) (hd : R.isDataType "DataType" = true) :
+    (Val.node "DataType" (some (.node "DataType" none none none [])) none none [.one "this" (.dtype "INT")]).view R =
+      Val.node "DataType" none none none [.one "this" (.dtype "INT")] := by
+  simp [Val.view, viewOpt, viewMeta, viewArgs, Arg.view, typeProp, hd]
+
+/-- **the two reconstruction paths agree**: for a tree as `dump` sees it, `load ∘ dump` is `copy` followed by `norm` … -/
+theorem copy_vs_load_dump (hashOf : Val → Option Nat) (t : Val) (hwf : t.WF) (hn : t.isNode = true) :
+    load (dump t) = (copy hashOf t).map fun c => some c.norm := by
+  have hobj : t.isObj = true := by cases t <;> simp_all [Val.isNode, Val.isObj]
+  rw [load_dump t hwf hobj, copy_eq hashOf t hwf hn]; rfl
+
+/-- … and precisely there they differ: `copy` keeps a `None`-valued arg (and `[]`, and `comments == []`),
+    `load ∘ dump` drops it -/
+theorem copy_load_dump_differ_witness (hashOf : Val → Option Nat) :
+    copy hashOf (Val.node "X" none none none [.one "a" (.raw .null)]) =
+      some (Val.node "X" none none none [.one "a" (.raw .null)]) ∧
+    load (dump (Val.node "X" none none none [.one "a" (.raw .null)])) = some (some (Val.node "X" none none none [])) := by
+  refine ⟨copy_eq hashOf _ (by simp [Val.WF, wfOpt, wfMeta, wfArgs, Arg.WF, keysOf, Arg.key, dataTypeCls]) rfl, ?_⟩
+  have := load_dump (Val.node "X" none none none [.one "a" (.raw .null)])
+    (by simp [Val.WF, wfOpt, wfMeta, wfArgs, Arg.WF, keysOf, Arg.key, dataTypeCls]) rfl
+  simpa [Val.norm, normOpt, normC, normMeta, normArgs, Arg.dropped, Val.isNull] using this
+
+/-- the classes that take the special branches of `Expression.type` in the current source -/
+def sourceRules : TypeRules where
+  isDataType := fun c => SqlglotModel.Generated.C12.dataTypeClasses.contains c
+  isCast := fun c => SqlglotModel.Generated.C12.castClasses.contains c
+
+/-- **JSON text round trip** (token level: grammar modelled, string / number lexing atomic): parsing the rendered text of
+    any JSON value gives the value back … -/
+theorem json_text_roundtrip (j : Py) (h : JsonValue j) : parse j.size (render j) = some (j, []) := by
+  simpa using parse_render j h [] j.size (Nat.le_refl _)
+
+/-- … in particular for the dump of every tree: `json.loads(json.dumps(dump(t)))` is `dump(t)` -/
+theorem dump_json_text_roundtrip (K : Keys) (t : Val) :
+    parse (Py.list (payloadsToPy K (dump t))).size (render (.list (payloadsToPy K (dump t)))) =
+      some (.list (payloadsToPy K (dump t)), []) :=
+  json_text_roundtrip _ (dump_json K t)
+
 /-- facts re-extracted from sqlglot/serde.py and expressions/core.py on every run: the eight payload keys are pairwise
     distinct (a collision would make two payload fields overwrite each other), the DType marker is the modelled one,
     the guards and the meta comprehensions of dump/load/_load are the modelled ones, and `__reduce__` returns exactly
